@@ -25,11 +25,13 @@ func genC08(seed uint64, run int, tier string) Scenario {
 	sc.WantVersion = ver
 	// prompt network: late replies are the server's doing, not the link's
 	sc.Net.SegMode = pick(r, "whole", "random", "mixed")
+	// timeouts are expected here and each costs timeout/5us poller steps: keep them short
+	sc.ReadDelayUS = int64(pick(r, 20, 50))
+	// (the cap must use the read delay chosen here: a trickling link slower than the short timeouts
+	// below would look like a server that does not answer)
 	if sc.Net.LatMax > 2*sc.readDelay() {
 		sc.Net.LatMax = 2 * sc.readDelay()
 	}
-	// timeouts are expected here and each costs timeout/5us poller steps: keep them short
-	sc.ReadDelayUS = int64(pick(r, 20, 50))
 	sc.ReadSize = pick(r, 256, 1024, 8192, 65535)
 	sc.fitTimeouts()
 	if sc.TimeoutOpsUS > sc.ReadDelayUS*800 {
